@@ -125,6 +125,16 @@ func (p *Program) verifyFunc(key string, safetyOnly bool) *FuncResult {
 			env.old[prm.Name()] = v
 		}
 	}
+	needWorld := p.Pkg.Types.Name() == "main"
+	if con != nil && len(con.EnsuresExit) > 0 {
+		needWorld = true
+	}
+	if needWorld {
+		e.initWorld(st)
+		for _, w := range worldVars {
+			env.old[w.name] = st.cell[e.world[w.name]]
+		}
+	}
 	if len(fn.FreeVars) > 0 {
 		res.Errors = append(res.Errors, "closures are verified inline, not standalone")
 		return res
@@ -311,17 +321,64 @@ func (p *Program) verifyFunc(key string, safetyOnly bool) *FuncResult {
 			_ = ri
 		}
 	}
+	// a function declared noreturn must not reach a return
+	if con != nil && con.NoReturn {
+		for _, rp := range fr.rets {
+			e.curBlock = rp.block
+			e.oblige("ensures", fmt.Sprintf("%s#noreturn@%s", key, e.posStr(rp.pos)), rp.pos, rp.pc, False, "declared noreturn: this return must be unreachable")
+		}
+	}
+	// postconditions at every process exit (os.Exit) reached from this function
+	if con != nil {
+		for xi, ep := range e.exits {
+			e.curBlock = ep.block
+			xenv := &SpecEnv{e: e, st: ep.st, vars: map[string]Val{}, old: env.old, lenient: true}
+			for _, prm := range fn.Params {
+				xenv.vars[prm.Name()] = fr.vals[prm]
+			}
+			xenv.vars["exit"] = termVal(ep.code)
+			xenv.knownName = func(name string) bool {
+				_, ok := fr.names[name]
+				return ok
+			}
+			xst := ep.st
+			var xblock *ssa.BasicBlock
+			if ep.block >= 0 && ep.block < len(fn.Blocks) {
+				xblock = fn.Blocks[ep.block]
+			}
+			xenv.lookup = func(name string) (Val, bool) {
+				if xblock == nil {
+					return Val{}, false
+				}
+				return fr.lookupNameAt(name, xst, xblock)
+			}
+			for ci, c := range con.EnsuresExit {
+				if !clauseFor(c, currentProperty) {
+					continue
+				}
+				g, err := e.evalClause(c.Text, xenv)
+				if err != nil {
+					res.Errors = append(res.Errors, fmt.Sprintf("ensures_exit %d: %v", ci, err))
+					continue
+				}
+				e.oblige("ensures", fmt.Sprintf("%s#ensures_exit(own/%d)@%s~x%d", key, ci, e.posStr(ep.pos), xi), ep.pos, ep.pc, g, c.Text)
+			}
+		}
+	}
 	e.curBlock = -1
 	// vacuity guard: some return point must be reachable under the assumptions made
-	if len(fr.rets) > 0 {
+	if len(fr.rets) > 0 || len(e.exits) > 0 {
 		var pcs []Term
 		for _, rp := range fr.rets {
 			pcs = append(pcs, rp.pc)
 		}
+		for _, ep := range e.exits {
+			pcs = append(pcs, ep.pc)
+		}
 		o := e.oblige("cover", key+"#cover-return", fn.Pos(), Or(pcs...), False, "some return point is reachable (assumptions are consistent)")
 		o.ExpectSat = true
 	}
-	if len(fr.rets) == 0 && len(enss) > 0 {
+	if len(fr.rets) == 0 && len(enss) > 0 && len(e.exits) == 0 {
 		res.Errors = append(res.Errors, "no return point reached")
 	}
 	return res
